@@ -1,6 +1,7 @@
 package main
 
 import (
+	"os"
 	"fmt"
 	"go/ast"
 	"go/types"
@@ -45,7 +46,7 @@ func (u *Universe) verifyFunc(fi *FuncInfo) (obls []*Obl, rep FuncReport) {
 	defer func() {
 		if r := recover(); r != nil {
 			rep.Error = fmt.Sprintf("%v", r)
-			if strings.Contains(rep.Error, "runtime error") {
+			if strings.Contains(rep.Error, "runtime error") || os.Getenv("GOVC_STACK") != "" {
 				rep.Error += "\n" + string(debug.Stack())
 			}
 			obls = nil
